@@ -7,6 +7,7 @@
   unambiguous table) and are then instantiated to the dumped table.
 -/
 import TfelVerif.C34.Lemmas
+import TfelVerif.C34.NumLemmas
 import TfelVerif.C34.GenTable
 
 namespace TfelVerif.C34.Props
@@ -67,6 +68,14 @@ theorem table_entries_are_members : ∀ e ∈ Gen.entries, e ∈ Gen.members.map
 /-- every physical bound parses with the numeric grammar and, per unit system, lower ≤ upper -/
 theorem table_bounds : ∀ e ∈ Gen.entries, e.boundsOk = true :=
   all_sound (by decide +kernel)
+
+/-- the same, spelt out: each bound string denotes a rational number and, for every unit system having
+both bounds, lower ≤ upper in ℚ -/
+theorem table_bounds_rational : ∀ e ∈ Gen.entries,
+    (∀ p ∈ e.lower, ∃ x, parseNum p.2 = some x) ∧ (∀ q ∈ e.upper, ∃ y, parseNum q.2 = some y) ∧
+    ∀ p ∈ e.lower, ∀ q ∈ e.upper, p.1 = q.1 →
+      ∃ x y, parseNum p.2 = some x ∧ parseNum q.2 = some y ∧ x.toRat ≤ y.toRat :=
+  fun e he => boundsOk_spec (table_bounds e he)
 
 /-- within an entry no unit system is given two bounds of the same kind (nor two units) -/
 theorem table_bound_systems : ∀ e ∈ Gen.entries,
